@@ -220,7 +220,9 @@ func (e *Env) quiet(capture bool, f func()) string {
 	} else {
 		os.Stdout = e.devnull
 	}
-	log.SetOutput(io.Discard)
+	if os.Getenv("VERIF_SHOW_LOG") == "" {
+		log.SetOutput(io.Discard)
+	}
 	defer func() {
 		os.Stdout = oldOut
 	}()
